@@ -182,3 +182,7 @@ func VH_C14_NoFrameAppendedBehindATornOne_sym() {
 		vAssertEqBytes("whole_frames_in_order", conn.got, append(append([]byte(nil), ref1...), ref2...))
 	}
 }
+
+// Whatever 16-bit ID a connected client was given - 0 and 0xFFFF included, the counter wraps after 65535 connections -
+// a transaction addressed to it is delivered to it, once, as its frame.
+func VH_C14_EveryHeldIDIsDeliverable() { cDeliverToHeldID() }
